@@ -526,3 +526,63 @@ def random_inputs(model_bytes, rng, sg_info=None, n=1, scale=1.0):
             samples.append(d)
         out[sd.signatureKey.decode()] = samples
     return out
+
+
+def gen_tied(rng):
+    """models with tied constants: one buffer referenced by several tensors (within / across subgraphs)
+    and one constant tensor feeding 2..3 operators."""
+    nsg = rng.choice([1, 1, 2])
+    g = G()
+    info = {"tags": {"tied"}, "subgraphs": []}
+    f, o = rng.choice([2, 3, 4]), rng.choice([2, 3])
+    wdata = _const(rng, [o, f])
+    shared_buf = None
+    for si in range(nsg):
+        prefix = f"s{si}/" if nsg > 1 else ""
+        g.subgraph(name=(prefix or "main").encode())
+        gr = Grower(g, rng, prefix)
+        x = gr.add_input([rng.randint(1, 2), f])
+        kinds = []
+        mode = rng.choice(["same_tensor", "same_buffer", "mixed"]) if si == 0 else "same_buffer"
+        if shared_buf is None:
+            w0 = g.tensor(gr.name("w"), [o, f], data=wdata)
+            shared_buf = g.sg.tensors[w0].buffer
+        else:
+            w0 = g.tensor(gr.name("w"), [o, f], buffer=shared_buf)
+            info["tags"].add("tied_across_subgraphs")
+        k = rng.randint(2, 3)
+        cur = x
+        outs = []
+        for j in range(k):
+            if mode == "same_tensor" or (mode == "mixed" and j < 2):
+                w = w0
+                info["tags"].add("same_tensor_multi_consumer")
+            else:
+                w = g.tensor(gr.name("w"), [o, f], buffer=shared_buf) if j > 0 else w0
+                if j > 0:
+                    info["tags"].add("tied_within_subgraph")
+            b = gr.const([o], base="b") if rng.random() < 0.6 else -1
+            y = gr.new_act([g.sg.tensors[x].shape[0], o])
+            g.op(BO.FULLY_CONNECTED, [x, w, b], [y], OPT.FullyConnectedOptions, s.FullyConnectedOptionsT())
+            kinds.append("FULLY_CONNECTED")
+            gr.out(y, [g.sg.tensors[x].shape[0], o])
+            outs.append(y)
+            if rng.random() < 0.4:
+                z = gr.new_act([g.sg.tensors[x].shape[0], o])
+                g.op(rng.choice([BO.TANH, BO.ABS, BO.LOGISTIC]), [y], [z])
+                gr.out(z, [g.sg.tensors[x].shape[0], o])
+                outs[-1] = z
+                kinds.append("UNARY")
+        if rng.random() < 0.4:
+            # the shared constant also feeds an elementwise op directly
+            c = g.tensor(gr.name("wt"), [o, f], buffer=shared_buf) if rng.random() < 0.5 else w0
+            xx = gr.add_input([o, f])
+            y = gr.new_act([o, f])
+            g.op(rng.choice([BO.ADD, BO.MUL]), [xx, c], [y], OPT.AddOptions, s.AddOptionsT())
+            gr.out(y, [o, f])
+            outs.append(y)
+            kinds.append("ELEMENTWISE_CONST")
+            info["tags"].add("tied_elementwise")
+        g.io(gr.inputs, outs, sig=f"sig{si}" if nsg > 1 else "serving_default")
+        info["subgraphs"].append({"sig": None, "int_inputs": [], "ops": kinds})
+    return g.bytes(), info
